@@ -32,7 +32,7 @@ impl Frame {
         ref_frame(self.ctrl, self.dst, self.src, &self.payload)
     }
     fn expect_line(&self) -> String {
-        format!("expect {} {} {} {}", self.ctrl, self.dst, self.src, hex(&self.payload))
+        format!("@expect {} {} {} {}", self.ctrl, self.dst, self.src, hex(&self.payload))
     }
 }
 
@@ -382,7 +382,7 @@ pub fn run(ops: &str, out: &mut dyn Write, mon: &mut dyn Write) {
                             writeln!(mon, "MONITOR-FAIL {hdr} :: format_matches_reference :: {line}").unwrap();
                         }
                     }
-                    ["expect", c, d, s, h] => expected.push(format!("{c} {d} {s} {h}")),
+                    ["@expect", c, d, s, h] => expected.push(format!("{c} {d} {s} {h}")),
                     [] => {}
                     _ => writeln!(out, "bad-op").unwrap(),
                 }
